@@ -38,6 +38,28 @@ pub trait Attribute<'s> {
     fn encode_len(&self) -> Result<u16, Error>;
 }
 
+/// https://datatracker.ietf.org/doc/html/rfc8489#section-14
+/// explicitly states that the length field must contain the
+/// value length __prior__ to padding. Some stun agents have
+/// the padding included in the length anyway. Text never contains
+/// NUL bytes, so for text values (and only for those) the padding
+/// can be told apart from the value: this removes the (at most 3)
+/// padding bytes from the end of a 4 byte aligned text value.
+pub(crate) fn strip_text_padding(value: &[u8]) -> &[u8] {
+    if value.len() % 4 != 0 {
+        return value;
+    }
+
+    let counted_padding = value
+        .iter()
+        .rev()
+        .take(3)
+        .take_while(|&&b| b == 0)
+        .count();
+
+    &value[..value.len() - counted_padding]
+}
+
 pub struct StringAttribute<'s, const TYPE: u16>(pub &'s str);
 
 impl<'s, const TYPE: u16> StringAttribute<'s, TYPE> {
@@ -55,7 +77,9 @@ impl<'s, const TYPE: u16> Attribute<'s> for StringAttribute<'s, TYPE> {
         msg: &'s mut ParsedMessage,
         attr: ParsedAttr,
     ) -> Result<Self, Error> {
-        Ok(Self(from_utf8(attr.get_value(msg.buffer()))?))
+        Ok(Self(from_utf8(strip_text_padding(
+            attr.get_value(msg.buffer()),
+        ))?))
     }
 
     fn encode(&self, _: Self::Context, builder: &mut MessageBuilder) -> Result<(), Error> {
